@@ -3,6 +3,7 @@ package c01
 
 import (
 	"fmt"
+	"time"
 
 	cedar "github.com/cedar-policy/cedar-go"
 	publicast "github.com/cedar-policy/cedar-go/ast"
@@ -154,8 +155,9 @@ func opFamily(name string, specs []gen.OpSpec, leaves []*Expr, arity int) *core.
 
 func Check() *core.Check {
 	return &core.Check{
-		ID:    "C01",
-		Title: "Expression evaluation follows the Cedar language semantics",
+		ID:        "C01",
+		HangAfter: 120 * time.Second, // cases take at most seconds (max_case_s in the evidence); see core.Family.HangAfter
+		Title:     "Expression evaluation follows the Cedar language semantics",
 		Rule: "bounded-exhaustive enumeration of operator x boundary-operand tables and depth-2/3 trees; each expression evaluated by x/exp/eval.Eval and by cedar.Authorize (one-policy set) and compared with the reference evaluator (value equality / error occurrence); " +
 			"a case is non-trivial if the reference result is a value (not an error)",
 		Assumptions: []string{
